@@ -26,6 +26,10 @@ type cliOp struct {
 	Kind string `json:"kind"` // new | diff1 | diff2 | hash | t_append | t_remove | t_add | t_sumline | t_rename
 }
 
+// the directory lives at a relative path whose last element is not "migrations", so that it can also be
+// handed over as a state source through a relative URL (file://proj/db).
+const cliDir = "proj/db"
+
 var cliAlphabet = []cliOp{{"new"}, {"diff1"}, {"diff2"}, {"hash"}, {"t_append"}, {"t_remove"}, {"t_add"}, {"t_sumline"}, {"t_rename"}}
 
 const hclS1 = `schema "main" {}
@@ -54,7 +58,7 @@ const hclS2 = hclS1 + `table "b" {
 
 func readDirSnap(wk *clih.Work) Snap {
 	s := Snap{}
-	for n, c := range wk.ReadDir("migrations") {
+	for n, c := range wk.ReadDir(cliDir) {
 		s[n] = c
 	}
 	return s
@@ -93,10 +97,10 @@ func runCLIHistory(h []cliOp, format string) (problems []string, canon string, o
 		return []string{"harness: " + err.Error()}, "", true
 	}
 	defer wk.Close()
-	os.MkdirAll(wk.Path("migrations"), 0o755)
+	os.MkdirAll(wk.Path(cliDir), 0o755)
 	os.WriteFile(wk.Path("s1.hcl"), []byte(hclS1), 0o644)
 	os.WriteFile(wk.Path("s2.hcl"), []byte(hclS2), 0o644)
-	dirURL := "file://" + wk.Path("migrations")
+	dirURL := "file://" + wk.Path(cliDir)
 	validSnap := Snap{}
 	for step, op := range h {
 		last := step == len(h)-1
@@ -167,31 +171,31 @@ func runCLIHistory(h []cliOp, format string) (problems []string, canon string, o
 				return nil, "", false
 			}
 			n := names[len(names)-1]
-			os.WriteFile(wk.Path("migrations", n), []byte(before[n]+"-- edited\n"), 0o644)
+			os.WriteFile(wk.Path(cliDir, n), []byte(before[n]+"-- edited\n"), 0o644)
 		case "t_remove":
 			if len(names) == 0 {
 				return nil, "", false
 			}
-			os.Remove(wk.Path("migrations", names[0]))
+			os.Remove(wk.Path(cliDir, names[0]))
 		case "t_add":
 			n := fmt.Sprintf("1%d_manual.sql", step)
 			if _, dup := before[n]; dup {
 				return nil, "", false
 			}
-			os.WriteFile(wk.Path("migrations", n), []byte(fmt.Sprintf("CREATE TABLE m%d (id integer);\n", step)), 0o644)
+			os.WriteFile(wk.Path(cliDir, n), []byte(fmt.Sprintf("CREATE TABLE m%d (id integer);\n", step)), 0o644)
 		case "t_sumline":
 			sum, has := before[migrate.HashFileName]
 			lines := strings.Split(strings.TrimRight(sum, "\n"), "\n")
 			if !has || len(lines) < 2 {
 				return nil, "", false
 			}
-			os.WriteFile(wk.Path("migrations", migrate.HashFileName), []byte(strings.Join(lines[:len(lines)-1], "\n")+"\n"), 0o644)
+			os.WriteFile(wk.Path(cliDir, migrate.HashFileName), []byte(strings.Join(lines[:len(lines)-1], "\n")+"\n"), 0o644)
 		case "t_rename":
 			if len(names) == 0 {
 				return nil, "", false
 			}
 			n := names[len(names)-1]
-			os.Rename(wk.Path("migrations", n), wk.Path("migrations", "9"+n))
+			os.Rename(wk.Path(cliDir, n), wk.Path(cliDir, "9"+n))
 		}
 		if !last {
 			continue
@@ -205,11 +209,21 @@ func runCLIHistory(h []cliOp, format string) (problems []string, canon string, o
 		v := wk.Run(nil, "migrate", "validate", "--dir", dirURL, "--dir-format", format)
 		// the library on the same bytes (LocalDir) must agree with the CLI.
 		var libErr error
-		if ld, err := migrate.NewLocalDir(wk.Path("migrations")); err == nil {
+		if ld, err := migrate.NewLocalDir(wk.Path(cliDir)); err == nil {
 			libErr = migrate.Validate(ld)
 		}
 		if (v.Exit == 0) != (libErr == nil) {
 			bad("`migrate validate` exit=%d but migrate.Validate(LocalDir)=%v", v.Exit, libErr)
+		}
+		// the directory as a state source (the desired state of an inspection), absolute and relative URL:
+		// a directory carrying a sum file is a migration directory and is validated before it is replayed.
+		if _, hasSum := cur[migrate.HashFileName]; hasSum && want == wantErr {
+			for _, u := range []string{dirURL, "file://" + cliDir} {
+				si := wk.Run(nil, "schema", "inspect", "--url", u, "--dev-url", "sqlite://dev?mode=memory")
+				if si.Exit == 0 {
+					bad("`schema inspect --url %s` reads the edited directory without a checksum complaint", u)
+				}
+			}
 		}
 		os.Remove(wk.Path("db.sqlite"))
 		ap := wk.Run(nil, "migrate", "apply", "--dir", dirURL+"?format="+format, "--url", wk.URL("db.sqlite"))
